@@ -74,8 +74,20 @@ Definition bond_grid (bts : list N) (sts : list N) (lbs : list (option N)) : lis
 Definition code_of_edge (r : option bool) : N := match r with Some false => 0 | Some true => 1 | None => 2 end%N.
 Definition node_table (g : list matom) : list bool :=
   flat_map (fun a1 => map (fun a2 => node_match a1 a2) g) g.
-Definition edge_table (g : list mbond) : list N :=
-  flat_map (fun e1 => map (fun e2 => code_of_edge (edge_match e1 e2)) g) g.
+(* pattern bond types for which _edge_match is implemented; for the others it raises NotImplementedError
+   (recorded finding C15:match:raises-NotImplementedError) and the model leaves the answer unspecified *)
+Definition supported_bt (bt : N) : bool := existsb (N.eqb bt) [0; 1; 2; 3; 20; 21; 11]%N.
+Definition supported_pattern (P : mgraph) : bool := forallb (fun e => supported_bt (mb_btype e)) (mg_bonds P).
+Definition edge_pairs (g : list mbond) : list (mbond * mbond) :=
+  flat_map (fun e1 => map (fun e2 => (e1, e2)) g) g.
+(* model and observed table agree wherever the pattern bond type is supported *)
+Fixpoint edge_agree (ps : list (mbond * mbond)) (obs : list N) : bool :=
+  match ps, obs with
+  | [], [] => true
+  | (e1, e2) :: ps', o :: obs' =>
+      (negb (supported_bt (mb_btype e2)) || N.eqb (code_of_edge (edge_match e1 e2)) o) && edge_agree ps' obs'
+  | _, _ => false
+  end.
 
 (* ================================================================== correspondence cases *)
 Fixpoint incl_b (l1 l2 : list (list nat)) : bool :=
